@@ -30,7 +30,7 @@ type CfgScript struct {
 	Auth   []string `json:"auth"`
 	TlsOff bool     `json:"tlsDisabled"`
 	Token  bool     `json:"tokenAuth"`
-	Signed bool     `json:"signedSel"`
+	Sel    string   `json:"sel"` // roundrobin | signed | unsigned | any | other (a word that is no mode)
 	QKey   bool     `json:"queryKey"`
 	Keytab bool     `json:"keytab"`
 	NHosts int      `json:"nhosts"`
@@ -116,10 +116,14 @@ func (r *Runner) RunStart(s *CfgScript, tw *TraceWriter) error {
 		}
 		c.Tls, c.CertFile, c.KeyFile = "enable", cp, kp
 	}
-	if s.Signed {
-		c.HostSelection = "signed"
-	} else {
+	switch s.Sel {
+	case "":
+		s.Sel = "roundrobin"
 		c.HostSelection = "roundrobin"
+	case "other":
+		c.HostSelection = "round-robin"
+	default:
+		c.HostSelection = s.Sel
 	}
 	if s.QKey {
 		c.QuerySigningKey = KeyQuery
@@ -183,7 +187,7 @@ func (r *Runner) RunStart(s *CfgScript, tw *TraceWriter) error {
 		if c.Tls == "disable" {
 			c.Tls = spell(s.Spell, c.Tls)
 		}
-		if c.HostSelection == "signed" {
+		if s.Sel != "other" {
 			c.HostSelection = spell(s.Spell, c.HostSelection)
 		}
 		if v, ok := c.Env["RDPGW_SERVER__AUTHENTICATION"]; ok {
@@ -234,7 +238,7 @@ func (r *Runner) RunStart(s *CfgScript, tw *TraceWriter) error {
 	if outcome == "listening" {
 		eff, probed = r.probeEffective(p, s, c)
 	}
-	tw.Line(M{"ev": "start", "script": s.ID, "cls": s.Src + "." + s.Spell, "src": s.Src, "cfg": M{"auth": s.Auth, "tlsDisabled": s.TlsOff, "tokenAuth": s.Token, "signedSel": s.Signed, "queryKey": s.QKey, "keytab": s.Keytab, "nhosts": s.NHosts, "spell": s.Spell},
+	tw.Line(M{"ev": "start", "script": s.ID, "cls": s.Src + "." + s.Spell, "src": s.Src, "cfg": M{"auth": s.Auth, "tlsDisabled": s.TlsOff, "tokenAuth": s.Token, "sel": s.Sel, "queryKey": s.QKey, "keytab": s.Keytab, "nhosts": s.NHosts, "spell": s.Spell},
 		"outcome": outcome, "exit": exit, "lastlog": trunc(last, 160), "eff": eff, "probed": probed})
 	return nil
 }
